@@ -45,7 +45,7 @@ def run(tier, seed):
             f["sig"] = "c06/tsan-report"
     res.rule = ("E1 rapidcheck over workloads: thread count in {1,2,3,4,8,16,32,64}, per-thread operation lists drawn from {each gate on shared inputs, tfhe_bootstrap_FFT, tfhe_bootstrap_woKS_FFT, FFT product of "
                 "thread-private polynomials, Lagrange add/addmul on private objects, heap churn (allocate, fill, free 16..512 KB before the next FFT call), loops over the rounding functions with other message-space sizes, exact Karatsuba products, sleep/yield, thread exit + respawn, bursts of 6..48 short-lived threads (1..6 rounds, sliding window of 1..16 live threads or all at once) that each make one FFT product and exit}, generated start offsets, optional "
-                "key-generation/encryption thread on its own data, key generated on the main thread or on a thread that has since exited (in the 'offmain' jobs every key is made by helper threads that have exited, so the harness thread never owns an FFT processor and the burst threads are the only owners); all jobs run concurrently so the machine is oversubscribed. Oracle: every output is "
+                "key-generation/encryption thread on its own data (LWE keys and fresh encryptions, and every other round a complete small gate-bootstrapping key set made through that thread's own FFT processor), key generated on the main thread or on a thread that has since exited (in the 'offmain' jobs every key is made by helper threads that have exited, so the harness thread never owns an FFT processor and the burst threads are the only owners); all jobs run concurrently so the machine is oversubscribed. Oracle: every output is "
                 "byte-identical to a reference computed by a fresh thread of a *freshly forked process image* that has never evaluated anything and runs only that operation (so concurrency, position in the per-thread history, thread identity and process-wide statics latched by earlier calls must not matter); operations include bootstrapping under two further key sets with different dimensions and key-switch layouts, and two crafted inputs whose AND combination rounds to exactly 0; ThreadSanitizer build "
                 "of the same workloads must not report (nayuki-portable, fftw, C++ parts of spqlios). Non-trivial = >= 2 threads evaluating on the shared key or an evaluation preceded by other operations on its thread; distinct by case hash.")
     res.assumptions = ["thread interleavings are sampled, not controlled: absence of races is not established", "hand-written assembly is invisible to ThreadSanitizer; it is covered by the byte comparison only"]
